@@ -66,7 +66,7 @@ seeded changes and which check catches which in §11.
   | U14 | `word_splitters::split_words` (closure, R16) | pieces cut exactly at the split points, hyphen penalty rule, whitespace/penalty on the last piece only; tiling | C12, C01 |
   | U15 | `core::Word::break_apart` (closure, R16) | non-empty pieces, concatenation, width limit unless a single non-zero-width char, maximality, never inside an escape sequence, cached widths | C12, C13, C01 |
   | U16 | `WordSplitter::split_points` (hyphen splitter) | exactly the positions after a `-` with alphanumerics on both sides; increasing char boundaries | C12 |
-  | U17 | `WrapAlgorithm::wrap` (dispatch), `Word`'s `Fragment` impl | hands the partition on; accessors are pure functions of the fields | C06, C01 |
+  | U17 | `WrapAlgorithm::wrap` (dispatch), `Word`'s `Fragment` impl | hands the words and every listed width to the algorithm unchanged and its partition back; accessors are pure functions of the fields | C06, C07, C03, C01 |
   | U18 | `refill::unfill` | indents are prefixes made of prefix characters; no inner line break; line-ending rule; all slices safe | C15, C04 |
   | U20 | `word_separators::find_words_unicode_break_properties` (three closures, R16) | the boundaries are exactly the kept UAX #14 opportunities (relative to the assumed shape of `unicode_linebreak::linebreaks`), one each, in order, mapped back outside escape sequences; words tile the line | C11, C13, C01 |
   | U21 | `refill::refill` | `refill(x, o2) == fill(unfill(x).text minus final ending, o2 with unfill(x)'s indents) ++ ending` | C16, C04 |
